@@ -365,7 +365,7 @@ Section Driver.
   Definition Fin (r : result PS) (s' : St) : Prop :=
     WFm s' /\
     match r with
-    | ROk p => p = ps s' /\ avail (buf s') = 0 /\ unread s' = 0
+    | ROk p => p = ps s' /\ avail (buf s') = 0 /\ unread s' = 0 /\ fc s' = true
     | RErr c ln =>
         (pr s' = false /\ pm_err s' c ln) \/
         (unread s' = 0 /\ fc s' = false /\ (pr s' = false -> jf s' = false -> partial s') /\
@@ -426,7 +426,7 @@ Section Driver.
         * (* proper EOF *)
           split; [exact W2|]. cbn [ps]. split; [reflexivity|].
           specialize (Hfc eq_refl). split; [lia|].
-          subst s2. cbn [unread].
+          subst s2. cbn [unread fc]. split; [|reflexivity].
           assert (space (buf s1) <> 0).
           { unfold space, avail in *. destruct Wg as [? [? ?]]. lia. }
           lia.
@@ -673,7 +673,7 @@ Section Top.
     exists (rev (log s)). pose proof W as W0. destruct W.
     split; [apply Forall_rev; exact wf_decs0|]. split; [exact wf_lines0|]. split; [exact wf_replay0|].
     destruct r as [p|c ln].
-    - destruct F as [F1 [F2 F3]]. split; [exact F1|]. exact (proj1 (fin_rest_nil lines t0 s W0 F2 F3)).
+    - destruct F as [F1 [F2 [F3 _]]]. split; [exact F1|]. exact (proj1 (fin_rest_nil lines t0 s W0 F2 F3)).
     - destruct F as [[_ F]|[_ [_ [_ [F|F]]]]].
       + left. exact F.
       + right. left. destruct F as [? [? ?]]. split; assumption.
@@ -691,7 +691,7 @@ Section Top.
     pose proof (size_nonneg L llen PS init_ps recog bump lineno llen_pos (map snd (rev (log s)))).
     destruct wf_geom0 as [? [? ?]]. destruct wf_off0 as [? ?]. unfold avail in *.
     split; [exact wf_cb0|]. split; [lia|].
-    intros p Hp. subst r. destruct F as [_ [F2 F3]].
+    intros p Hp. subst r. destruct F as [_ [F2 [F3 _]]].
     rewrite wf_cb0. exact (proj2 (fin_rest_nil lines t0 s W0 F2 F3)).
   Qed.
 End Top.
